@@ -106,10 +106,13 @@ const prelude = `(declare-fun alen ((_ BitVec 64)) (_ BitVec 64))
 (declare-fun uf_validuri ((_ BitVec 64)) Bool)
 (declare-fun uf_oncurve ((_ BitVec 64) (_ BitVec 528) (_ BitVec 528)) Bool)`
 
+// transcripts for cross-checking keep the first crossLimit check-sat queries of each worker
+const crossLimit = 4000
+
 func (s *Solver) Send(line string) {
 	s.in.WriteString(line)
 	s.in.WriteByte('\n')
-	if s.log != nil {
+	if s.log != nil && len(s.Answers) < crossLimit {
 		s.log.WriteString(line)
 		s.log.WriteByte('\n')
 	}
@@ -197,7 +200,7 @@ func (s *Solver) Check() (SatResult, string) {
 	if slowQueryLog && d > 2*time.Second {
 		fmt.Fprintf(os.Stderr, "SLOW QUERY %.1fs -> %v: %s\n", d.Seconds(), r, s.lastAssert)
 	}
-	if s.log != nil {
+	if s.log != nil && len(s.Answers) < crossLimit {
 		s.Answers = append(s.Answers, r)
 	}
 	return r, msg
